@@ -54,7 +54,10 @@ BigLits == << Lit("", FALSE, <<2,1,4,7,4,8,3,6,4,8>>),                       \* 
               Lit("", TRUE, <<1,1,2,2,3,3,4,4,5,5,6,6,7,7,8,8>>),            \* 0x1122334455667788
               Lit("", FALSE, [k \in 1..20 |-> 9]), Lit("-", FALSE, [k \in 1..25 |-> 9]),
               Lit("", FALSE, [k \in 1..39 |-> 9]), Lit("", FALSE, [k \in 1..40 |-> 9]),
-              Lit("", TRUE, [k \in 1..20 |-> 15]) >>
+              Lit("", TRUE, [k \in 1..20 |-> 15]),
+              \* in-range values written with many leading zeros (decimal, 25 and 40 digits; hex, 30 digits)
+              Lit("", FALSE, [k \in 1..25 |-> IF k = 25 THEN 7 ELSE 0]), Lit("-", FALSE, [k \in 1..40 |-> IF k >= 39 THEN 1 ELSE 0]),
+              Lit("+", FALSE, [k \in 1..22 |-> IF k >= 20 THEN 9 ELSE 0]), Lit("-", TRUE, [k \in 1..30 |-> IF k = 30 THEN 2 ELSE 0]) >>
 
 Ins(mn, ops) == [mn |-> mn, ops |-> ops]
 
